@@ -67,6 +67,11 @@ def transform_constant(source: DenseIntOrFPElementsAttr, dest_layout: Attribute)
         warnings.warn("failed to transform constant op, dest layout dynamic")
         return None
 
+    if dest_layout.data.offset != 0:
+        # the transformed data starts at element 0 of the constant, a layout with an offset does not describe it
+        warnings.warn("failed to transform constant op, dest layout has an offset")
+        return None
+
     strides = [stride for _, _, stride in dest_layout.data]
     bounds = cast(list[int], [stride.bound for stride in strides])
     order = np.argsort(cast(list[int], [stride.step for stride in strides]))
